@@ -266,7 +266,7 @@ class Symbols:
                 return t
             c = fill(rule['lean'])
             named = {k2: fill(v2) for k2, v2 in rule.get('named', {}).items()}
-            if c in self.sigs and not any(re.search(r'\{(?!w\}|N\})[A-Za-z]+\}', x) for x in named.values()):
+            if c in self.sigs and not any(re.search(r'\{(?!w\}|N\}|M\})[A-Za-z]+\}', x) for x in named.values()):
                 return {'lean': c, 'pre': [fill(x) for x in rule.get('pre', [])], 'post': [fill(x) for x in rule.get('post', [])], 'named': named}
         return None
 
@@ -508,13 +508,17 @@ class Translator:
         v = self.stmts(list(stmts), tail, env, seq, tailpos)
         return self.finalize(seq, v)
 
+    CFGS = {'cfg(debug_assertions)': ('dbg', True), 'cfg(not(debug_assertions))': ('dbg', False),
+            # the model's `e` is "the target is little-endian" (Model/Endian.lean)
+            'cfg(target_endian="little")': ('e', True), 'cfg(not(target_endian="little"))': ('e', False),
+            'cfg(target_endian="big")': ('e', False), 'cfg(not(target_endian="big"))': ('e', True)}
+
     def cfg_of(self, attrs):
-        """-> True (debug_assertions), False (not(debug_assertions)), None; raises on other cfgs"""
+        """-> (context variable, value under which the statement is compiled) or None; raises on other cfgs"""
         r = None
         for a in attrs:
             if a.startswith('cfg('):
-                if a == 'cfg(debug_assertions)': r = True
-                elif a == 'cfg(not(debug_assertions))': r = False
+                if a in self.CFGS: r = self.CFGS[a]
                 else: raise Unsupported('statement attribute #[%s]' % a)
         return r
 
@@ -530,10 +534,10 @@ class Translator:
                     out = []
                     for s in stmts[i:]:
                         cc = self.cfg_of(s[-1])
-                        if cc is None or cc == flag:
-                            out.append(s[:-1] + ([],))
+                        if cc is None or cc[0] != c[0]: out.append(s)
+                        elif cc[1] == flag: out.append(s[:-1] + ([],))
                     return out
-                dbg = self.use_ctx('dbg')
+                dbg = self.use_ctx(c[0])
                 a = self.sub_stmts(filt(True), tail, env, tailpos)
                 b = self.sub_stmts(filt(False), tail, env, tailpos)
                 terms, out, ty = self.join([a, b])
